@@ -80,7 +80,11 @@ def plan(tier, seed):
             sig_cells.append(('terminate_job', 'c_sleep', 2, s))
     rng.shuffle(sig_cells)
     n_s = 18 if tier == 'quick' else len(sig_cells)
-    for (src, st, nproc, s) in sig_cells[:n_s]:
+    chosen_sig = sig_cells[:n_s]
+    if tier == 'quick':
+        # signals only the full protection set handles
+        chosen_sig += [('operator', 'c_sleep', 2, 'SIGALRM'), ('operator', 'idle', 2, 'SIGXCPU')]
+    for (src, st, nproc, s) in chosen_sig:
         specs.append({'lane': 'real', 'sc': 'signal', 'timeout': 90, 'params': {
             'source': src, 'worker_state': st, 'nproc': nproc,
             'sig': int(getattr(signal, s)), 'signame': s, 'T': 1.0, 'limit': 1.0,
@@ -226,7 +230,7 @@ def check_signal(p, r, obs, ev, attrs, rec):
         rec.count('real:busy_at_call')
         oc = obs.get('victim_outcome')
         legal = {'operator': ('WorkerLostError', 'Terminated'),
-                 'terminate_job': ('Terminated', 'WorkerLostError'),
+                 'terminate_job': ('Terminated',),
                  'hard_limit': ('TimeLimitExceeded',)}[p['source']]
         if not oc or oc[0] == 'unresolved':
             rec.violation('job_of_signalled_worker_never_resolved', attrs, params=p, obs=obs)
